@@ -9,60 +9,69 @@ def errUnimplemented : Nat := 12
 def kinds : List (String × Nat) := [("KindInvoke", 1), ("KindMessage", 2), ("KindError", 3), ("KindCancel", 4), ("KindClose", 5), ("KindCloseSend", 6), ("KindInvokeMetadata", 7)]
 
 def fp_drpcwire_varint_ReadVarint : List String :=
-  ["for", "call:uint", "0", "<", "64", "+=", "7", "if", "==", "call:len", "0", "return", "0", 
-    "call:uint64", "index", "0", "|", "<<", "&", "127", "slice", "1", "if", "<", "128", "return", 
-    "return", "0", "call:drpc.Error.New", "s:varint too long"]
+  ["=rem", "for", "=shift", "call:uint", "0", "<", "64", "+=", "7", "if", "==", "call:len", "0", 
+    "return", "0", "=val", "call:uint64", "index", "0", "=out", "=rem", "|", "<<", "&", "127", 
+    "slice", "1", "if", "<", "128", "return", "return", "0", "call:drpc.Error.New", "s:varint too long"]
 def fp_drpcwire_varint_AppendVarint : List String :=
-  ["for", ">=", "128", "call:append", "call:byte", "|", "&", "127", "128", ">>=", "7", "return", 
-    "call:append", "call:byte"]
+  ["for", ">=", "128", "=buf", "call:append", "call:byte", "|", "&", "127", "128", ">>=", "7", 
+    "return", "call:append", "call:byte"]
 def fp_drpcwire_packet_ParseFrame : List String :=
-  ["if", "<", "call:len", "4", "goto", "slice", "1", "index", "0", ">", "&", "1", "0", ">", "&", 
-    "128", "0", "call:Kind", ">>", "&", "126", "1", "call:ReadVarint", "if", "||", "u!", "!=", 
-    "goto", "call:ReadVarint", "if", "||", "u!", "!=", "goto", "call:ReadVarint", "if", "||", "||", 
-    "u!", "!=", ">", "call:uint64", "call:len", "goto", "slice", "slice", "return", "return"]
+  ["if", "<", "call:len", "4", "goto", "=rem", "=control", "slice", "1", "index", "0", "=fr.Done", 
+    ">", "&", "1", "0", "=fr.Control", ">", "&", "128", "0", "=fr.Kind", "call:Kind", ">>", "&", 
+    "126", "1", "=rem", "=fr.ID.Stream", "=ok", "=err", "call:ReadVarint", "if", "||", "u!", "!=", 
+    "goto", "=rem", "=fr.ID.Message", "=ok", "=err", "call:ReadVarint", "if", "||", "u!", "!=", 
+    "goto", "=rem", "=length", "=ok", "=err", "call:ReadVarint", "if", "||", "||", "u!", "!=", 
+    ">", "call:uint64", "call:len", "goto", "=rem", "=fr.Data", "slice", "slice", "return", "return"]
 def fp_drpcwire_packet_AppendFrame : List String :=
-  ["call:byte", "<<", "1", "if", "|=", "1", "if", "|=", "128", "call:append", "call:AppendVarint", 
-    "call:AppendVarint", "call:AppendVarint", "call:uint64", "call:len", "call:append", "return"]
+  ["=control", "call:byte", "<<", "1", "if", "|=", "1", "if", "|=", "128", "=out", "=out", "call:append", 
+    "=out", "call:AppendVarint", "=out", "call:AppendVarint", "=out", "call:AppendVarint", "call:uint64", 
+    "call:len", "=out", "call:append", "return"]
 def fp_drpcwire_packet_ID_Less : List String :=
   ["return", "||", "<", "&&", "==", "<"]
 def fp_drpcwire_split_SplitN : List String :=
-  ["for", "call:SplitData", "==", "call:len", "0", "if", "call:cb", "!=", "return", "if", "return"]
+  ["for", "=fr", "=fr.Data", "=pkt.Data", "call:SplitData", "=fr.Done", "==", "call:len", "0", 
+    "if", "=err", "call:cb", "!=", "return", "if", "return"]
 def fp_drpcwire_split_SplitData : List String :=
-  ["switch", "case", "==", "0", "*", "64", "1024", "case", "<", "0", "0", "if", "&&", ">", "call:len", 
-    ">", "0", "return", "slice", "slice", "return"]
+  ["switch", "case", "==", "0", "=n", "*", "64", "1024", "case", "<", "0", "=n", "0", "if", "&&", 
+    ">", "call:len", ">", "0", "return", "slice", "slice", "return"]
 def fp_drpcwire_reader_NewReaderWithOptions : List String :=
-  ["if", "==", "0", "<<", "4", "20", "return", "u&", "call:make", "0", "4096", "1", "1"]
+  ["if", "==", "0", "=opts.MaximumBufferSize", "<<", "4", "20", "return", "u&", "call:make", "0", 
+    "4096", "1", "1"]
 def fp_drpcwire_reader_Reader_read : List String :=
-  ["for", "0", "<", "100", "++", "if", "!=", "return", "0", "call:r.r.Read", "if", ">", "0", "return", 
-    "return", "0", "call:drpc.InternalError.Wrap"]
+  ["for", "=i", "0", "<", "100", "++", "if", "!=", "=r.rerr", "=err", "return", "0", "=n", "=r.rerr", 
+    "call:r.r.Read", "if", ">", "0", "return", "return", "0", "call:drpc.InternalError.Wrap"]
 def fp_drpcwire_reader_Reader_ReadPacketUsing : List String :=
-  ["slice", "0", "for", "call:ParseFrame", "switch", "case", "!=", "return", "call:drpc.ProtocolError.Wrap", 
-    "case", "u!", "if", ">", "-", "call:len", "maxFrameOverhead=31", "return", "call:drpc.ProtocolError.New", 
-    "s:data overflow", "if", "==", "call:len", "0", "call:append", "slice", "0", "if", "<", "-", 
-    "call:cap", "call:len", "4096", "call:make", "call:len", "+", "*", "2", "call:cap", "4096", 
-    "call:copy", "call:r.read", "slice", "call:len", "call:cap", "if", "!=", "return", "call:uint", 
-    "+", "call:len", "if", ">", "call:uint", "call:cap", "return", "call:drpc.ProtocolError.New", 
-    "s:data overflow", "slice", "continue", "if", ">", "call:len", "0", "slice", "0", "||", "switch", 
-    "case", "call:fr.ID.Less", "return", "call:drpc.ProtocolError.New", "s:id monotonicity violation (fr:%v r:%v)", 
-    "case", "||", "!=", "==", "slice", "0", "case", "!=", "return", "call:drpc.ProtocolError.New", 
-    "s:packet kind change (fr:%v pkt:%v)", "call:append", "switch", "case", ">", "call:len", "return", 
-    "call:drpc.ProtocolError.New", "s:data overflow (len:%v)", "call:len", "case", "++", "return"]
+  ["=pkt.Data", "slice", "0", "for", "=r.curr", "=fr", "=ok", "=err", "call:ParseFrame", "switch", 
+    "case", "!=", "return", "call:drpc.ProtocolError.Wrap", "case", "u!", "if", ">", "-", "call:len", 
+    "maxFrameOverhead=31", "return", "call:drpc.ProtocolError.New", "s:data overflow", "if", "==", 
+    "call:len", "0", "=r.buf", "call:append", "slice", "0", "if", "<", "-", "call:cap", "call:len", 
+    "4096", "=nbuf", "call:make", "call:len", "+", "*", "2", "call:cap", "4096", "call:copy", "=r.buf", 
+    "=n", "=err", "call:r.read", "slice", "call:len", "call:cap", "if", "!=", "return", "=ncap", 
+    "call:uint", "+", "call:len", "if", ">", "call:uint", "call:cap", "return", "call:drpc.ProtocolError.New", 
+    "s:data overflow", "=r.buf", "slice", "=r.curr", "continue", "if", ">", "call:len", "0", "=r.buf", 
+    "slice", "0", "=pkt.Control", "||", "switch", "case", "call:fr.ID.Less", "return", "call:drpc.ProtocolError.New", 
+    "s:id monotonicity violation (fr:%v r:%v)", "case", "||", "!=", "==", "=r.id", "=pkt", "slice", 
+    "0", "case", "!=", "return", "call:drpc.ProtocolError.New", "s:packet kind change (fr:%v pkt:%v)", 
+    "=pkt.Data", "call:append", "switch", "case", ">", "call:len", "return", "call:drpc.ProtocolError.New", 
+    "s:data overflow (len:%v)", "call:len", "case", "++", "return"]
 def fp_drpcwire_writer_NewWriter : List String :=
-  ["if", "==", "0", "*", "4", "1024", "return", "u&", "call:make", "0"]
+  ["if", "==", "0", "=size", "*", "4", "1024", "return", "u&", "call:make", "0"]
 def fp_drpcwire_writer_Writer_WriteFrame : List String :=
   ["call:b.mu.Lock", "defer", "call:b.mu.Unlock", "if", "==", "call:len", "0", "call:atomic.StoreUint32", 
-    "u&", "1", "call:AppendFrame", "if", ">=", "call:len", "call:b.log", "s:FLUSH", "return", "call:fmt.Sprintf", 
-    "s:buffer: %d > %d", "call:len", "call:b.w.Write", "slice", "0", "call:atomic.StoreUint32", 
-    "u&", "0", "return"]
+    "u&", "1", "=b.buf", "call:AppendFrame", "if", ">=", "call:len", "call:b.log", "s:FLUSH", "return", 
+    "call:fmt.Sprintf", "s:buffer: %d > %d", "call:len", "=_", "=err", "call:b.w.Write", "=b.buf", 
+    "slice", "0", "call:atomic.StoreUint32", "u&", "0", "return"]
 def fp_drpcwire_writer_Writer_Flush : List String :=
-  ["call:b.mu.Lock", "defer", "call:b.mu.Unlock", "if", ">", "call:len", "0", "call:b.w.Write", 
-    "call:b.log", "s:FLUSH", "return", "call:fmt.Sprintf", "s:explicit: %d", "call:len", "slice", 
-    "0", "call:atomic.StoreUint32", "u&", "0", "return"]
+  ["call:b.mu.Lock", "defer", "call:b.mu.Unlock", "if", ">", "call:len", "0", "=_", "=err", "call:b.w.Write", 
+    "call:b.log", "s:FLUSH", "return", "call:fmt.Sprintf", "s:explicit: %d", "call:len", "=b.buf", 
+    "slice", "0", "call:atomic.StoreUint32", "u&", "0", "return"]
 def fp_drpcwire_writer_Writer_Reset : List String :=
-  ["call:b.mu.Lock", "defer", "call:b.mu.Unlock", "slice", "0", "call:atomic.StoreUint32", "u&", 
-    "0", "return"]
+  ["call:b.mu.Lock", "defer", "call:b.mu.Unlock", "=b.buf", "slice", "0", "call:atomic.StoreUint32", 
+    "u&", "0", "return"]
 def fp_drpcwire_writer_Writer_Empty : List String :=
   ["return", "==", "call:atomic.LoadUint32", "u&", "0"]
+def fp_drpcwire_writer_Writer_WritePacket : List String :=
+  ["return", "call:b.WriteFrame"]
 def fp_drpcwire_error_MarshalError : List String :=
   ["8", "call:binary.BigEndian.PutUint64", "slice", "call:drpcerr.Code", "return", "call:append", 
     "slice", "call:err.Error"]
@@ -71,9 +80,9 @@ def fp_drpcwire_error_UnmarshalError : List String :=
     "return", "call:drpcerr.WithCode", "call:errs.New", "s:%s", "slice", "8", "call:binary.BigEndian.Uint64", 
     "slice", "8"]
 def fp_drpcerr_err_Code : List String :=
-  ["for", "0", "<", "100", "++", "switch", "case", "return", "call:v.Code", "case", "call:v.Cause", 
-    "case", "call:v.Unwrap", "default", "return", "0", "if", "call:shallowEqual", "return", "0", 
-    "return", "0"]
+  ["for", "=i", "0", "<", "100", "++", "=prev", "switch", "=v", "case", "return", "call:v.Code", 
+    "case", "=err", "call:v.Cause", "case", "=err", "call:v.Unwrap", "default", "return", "0", 
+    "if", "call:shallowEqual", "return", "0", "return", "0"]
 def fp_drpcerr_err_WithCode : List String :=
   ["if", "||", "==", "==", "0", "return", "return", "u&"]
 def fp_drpcmetadata_serialize_varintSize : List String :=
@@ -81,108 +90,117 @@ def fp_drpcmetadata_serialize_varintSize : List String :=
 def fp_drpcmetadata_serialize_encodedStringSize : List String :=
   ["return", "+", "+", "1", "call:varintSize", "call:uint64", "call:len", "call:uint64", "call:len"]
 def fp_drpcmetadata_serialize_appendEntry : List String :=
-  ["call:append", "10", "call:drpcwire.AppendVarint", "+", "call:encodedStringSize", "call:encodedStringSize", 
-    "call:append", "10", "call:drpcwire.AppendVarint", "call:uint64", "call:len", "call:append", 
-    "call:append", "18", "call:drpcwire.AppendVarint", "call:uint64", "call:len", "call:append", 
-    "return"]
+  ["=buf", "call:append", "10", "=buf", "call:drpcwire.AppendVarint", "+", "call:encodedStringSize", 
+    "call:encodedStringSize", "=buf", "call:append", "10", "=buf", "call:drpcwire.AppendVarint", 
+    "call:uint64", "call:len", "=buf", "call:append", "=buf", "call:append", "18", "=buf", "call:drpcwire.AppendVarint", 
+    "call:uint64", "call:len", "=buf", "call:append", "return"]
 def fp_drpcmetadata_serialize_readEntry : List String :=
-  ["if", "||", "<", "call:len", "1", "!=", "index", "0", "10", "goto", "call:drpcwire.ReadVarint", 
-    "slice", "1", "if", "||", "||", "u!", "!=", ">", "call:uint64", "call:len", "goto", "call:readKeyValue", 
-    "slice", "if", "||", "u!", "!=", "goto", "return", "slice", "return"]
+  ["if", "||", "<", "call:len", "1", "!=", "index", "0", "10", "goto", "=buf", "=length", "=ok", 
+    "=err", "call:drpcwire.ReadVarint", "slice", "1", "if", "||", "||", "u!", "!=", ">", "call:uint64", 
+    "call:len", "goto", "=key", "=value", "=ok", "=err", "call:readKeyValue", "slice", "if", "||", 
+    "u!", "!=", "goto", "return", "slice", "return"]
 def fp_drpcmetadata_serialize_readKeyValue : List String :=
-  ["if", "||", "<", "call:len", "1", "!=", "index", "0", "10", "goto", "call:drpcwire.ReadVarint", 
-    "slice", "1", "if", "||", "||", "u!", "!=", ">", "call:uint64", "call:len", "goto", "slice", 
-    "slice", "if", "||", "<", "call:len", "1", "!=", "index", "0", "18", "goto", "call:drpcwire.ReadVarint", 
-    "slice", "1", "if", "||", "||", "u!", "!=", ">", "call:uint64", "call:len", "goto", "slice", 
-    "slice", "if", "!=", "call:len", "0", "goto", "return", "return"]
+  ["if", "||", "<", "call:len", "1", "!=", "index", "0", "10", "goto", "=buf", "=length", "=ok", 
+    "=err", "call:drpcwire.ReadVarint", "slice", "1", "if", "||", "||", "u!", "!=", ">", "call:uint64", 
+    "call:len", "goto", "=buf", "=key", "slice", "slice", "if", "||", "<", "call:len", "1", "!=", 
+    "index", "0", "18", "goto", "=buf", "=length", "=ok", "=err", "call:drpcwire.ReadVarint", "slice", 
+    "1", "if", "||", "||", "u!", "!=", ">", "call:uint64", "call:len", "goto", "=buf", "=value", 
+    "slice", "slice", "if", "!=", "call:len", "0", "goto", "return", "return"]
 def fp_drpcmetadata_metadata_Encode : List String :=
-  ["for", "call:appendEntry", "return"]
+  ["for", "=buf", "call:appendEntry", "return"]
 def fp_drpcmetadata_metadata_Decode : List String :=
-  ["for", ">", "call:len", "0", "call:readEntry", "if", "!=", "return", "if", "u!", "return", 
-    "call:errs.New", "s:invalid data", "if", "==", "call:make", "index", "call:string", "call:string", 
-    "return"]
+  ["for", ">", "call:len", "0", "=buf", "=key", "=value", "=ok", "=err", "call:readEntry", "if", 
+    "!=", "return", "if", "u!", "return", "call:errs.New", "s:invalid data", "if", "==", "=out", 
+    "call:make", "=out", "index", "call:string", "call:string", "return"]
 def fp_drpchttp_context_buildContext : List String :=
-  ["for", "call:strings.IndexByte", "61", "if", ">=", "0", "call:unescape", "slice", "+", "1", 
-    "if", "!=", "return", "slice", "call:unescape", "if", "!=", "return", "call:drpcmetadata.Add", 
-    "return"]
+  ["for", "=index", "call:strings.IndexByte", "61", "if", ">=", "0", "=value", "=err", "call:unescape", 
+    "slice", "+", "1", "if", "!=", "return", "=entry", "slice", "=key", "=err", "call:unescape", 
+    "if", "!=", "return", "=ctx", "call:drpcmetadata.Add", "return"]
 def fp_drpchttp_context_unhex : List String :=
-  ["switch", "case", "&&", "<=", "48", "<=", "57", "-", "48", "case", "&&", "<=", "97", "<=", 
-    "102", "+", "-", "97", "10", "case", "&&", "<=", "65", "<=", "70", "+", "-", "65", "10", "default", 
-    "return", "0", "return", "+", "*"]
+  ["switch", "case", "&&", "<=", "48", "<=", "57", "=d", "-", "48", "case", "&&", "<=", "97", 
+    "<=", "102", "=d", "+", "-", "97", "10", "case", "&&", "<=", "65", "<=", "70", "=d", "+", "-", 
+    "65", "10", "default", "return", "0", "return", "+", "*"]
 def fp_drpchttp_context_unescape : List String :=
-  ["call:strings.Count", "s:%", "if", "==", "0", "return", "if", "-", "call:len", "*", "2", ">", 
-    "0", "call:t.Grow", "for", "call:uint", "0", "<", "call:uint", "call:len", "++", "switch", 
-    "index", "case", "37", "if", ">=", "+", "2", "call:uint", "call:len", "return", "s:", "call:errs.New", 
-    "s:error unescaping %q: sequence ends", "call:unhex", "0", "index", "+", "1", "16", "if", "u!", 
-    "return", "s:", "call:errs.New", "s:error unescaping %q: invalid hex digit", "call:unhex", 
-    "index", "+", "2", "1", "if", "u!", "return", "s:", "call:errs.New", "s:error unescaping %q: invalid hex digit", 
-    "call:t.WriteByte", "+=", "2", "default", "call:t.WriteByte", "index", "return", "call:t.String"]
+  ["=count", "call:strings.Count", "s:%", "if", "==", "0", "return", "if", "=n", "-", "call:len", 
+    "*", "2", ">", "0", "call:t.Grow", "for", "=i", "call:uint", "0", "<", "call:uint", "call:len", 
+    "++", "switch", "index", "case", "37", "if", ">=", "+", "2", "call:uint", "call:len", "return", 
+    "s:", "call:errs.New", "s:error unescaping %q: sequence ends", "=c", "=ok", "call:unhex", "0", 
+    "index", "+", "1", "16", "if", "u!", "return", "s:", "call:errs.New", "s:error unescaping %q: invalid hex digit", 
+    "=c", "=ok", "call:unhex", "index", "+", "2", "1", "if", "u!", "return", "s:", "call:errs.New", 
+    "s:error unescaping %q: invalid hex digit", "=_", "call:t.WriteByte", "+=", "2", "default", 
+    "=_", "call:t.WriteByte", "index", "return", "call:t.String"]
 def fp_drpchttp_handler_getCode : List String :=
-  ["s:unknown", "if", "call:drpcerr.Code", "!=", "0", "call:fmt.Sprintf", "s:drpcerr(%d)", "for", 
-    "0", "&&", "<", "100", "!=", "++", "if", "call:reflect.ValueOf().MethodByName", "call:reflect.ValueOf", 
-    "s:Code", "call:m.IsValid", "if", "call:m.Type", "&&", "&&", "==", "call:mt.NumIn", "0", "==", 
-    "call:mt.NumOut", "1", "==", "call:mt.Out().Kind", "call:mt.Out", "0", "return", "call:m.Call().String", 
-    "index", "call:m.Call", "0", "switch", "case", "call:v.Cause", "case", "call:v.Unwrap", "default", 
-    "return", "return"]
+  ["=code", "s:unknown", "if", "=dcode", "call:drpcerr.Code", "!=", "0", "=code", "call:fmt.Sprintf", 
+    "s:drpcerr(%d)", "for", "=i", "0", "&&", "<", "100", "!=", "++", "if", "=m", "call:reflect.ValueOf().MethodByName", 
+    "call:reflect.ValueOf", "s:Code", "call:m.IsValid", "if", "=mt", "call:m.Type", "&&", "&&", 
+    "==", "call:mt.NumIn", "0", "==", "call:mt.NumOut", "1", "==", "call:mt.Out().Kind", "call:mt.Out", 
+    "0", "return", "call:m.Call().String", "index", "call:m.Call", "0", "switch", "=v", "case", 
+    "=err", "call:v.Cause", "case", "=err", "call:v.Unwrap", "default", "return", "return"]
 def fp_drpchttp_handler_wrapper_ServeHTTP : List String :=
-  ["index", "call:req.Header.Get", "s:Content-Type", "if", "u!", "index", "s:*", "call:Context", 
-    "if", "==", "call:req.WithContext", "call:pr.NewStream", "call:st.Finish", "call:w.handler.HandleRPC"]
+  ["=pr", "=ok", "index", "call:req.Header.Get", "s:Content-Type", "if", "u!", "=pr", "index", 
+    "s:*", "=ctx", "=err", "call:Context", "if", "==", "=req", "call:req.WithContext", "=st", "call:pr.NewStream", 
+    "call:st.Finish", "call:w.handler.HandleRPC"]
 def fp_drpchttp_encoding_grpcRead : List String :=
-  ["if", "call:readExactly", "5", "!=", "return", "if", "call:binary.BigEndian.Uint32", "slice", 
-    "1", "5", ">", "maxSize=4194304", "return", "call:errs.New", "s:message too large", "if", "call:readExactly", 
-    "call:uint64", "call:errors.Is", "return", "if", "!=", "return", "return"]
+  ["if", "=tmp", "=err", "call:readExactly", "5", "!=", "return", "if", "=size", "call:binary.BigEndian.Uint32", 
+    "slice", "1", "5", ">", "maxSize=4194304", "return", "call:errs.New", "s:message too large", 
+    "if", "=data", "=err", "call:readExactly", "call:uint64", "call:errors.Is", "return", "if", 
+    "!=", "return", "return"]
 def fp_drpchttp_encoding_twirpRead : List String :=
-  ["if", "call:io.ReadAll", "call:io.LimitReader", "+", "maxSize=4194304", "1", "!=", "return", 
-    "if", ">", "call:len", "maxSize=4194304", "return", "call:errs.New", "s:message too large", 
+  ["if", "=data", "=err", "call:io.ReadAll", "call:io.LimitReader", "+", "maxSize=4194304", "1", 
+    "!=", "return", "if", ">", "call:len", "maxSize=4194304", "return", "call:errs.New", "s:message too large", 
     "return"]
 def fp_drpchttp_encoding_readExactly : List String :=
-  ["call:make", "call:io.ReadFull", "return"]
+  ["=buf", "call:make", "=_", "=err", "call:io.ReadFull", "return"]
 def fp_drpchttp_encoding_base64Write : List String :=
-  ["return", "call:make", "call:base64.StdEncoding.EncodedLen", "call:len", "call:base64.StdEncoding.Encode", 
+  ["return", "=tmp", "call:make", "call:base64.StdEncoding.EncodedLen", "call:len", "call:base64.StdEncoding.Encode", 
     "return", "call:wf"]
 def fp_drpchttp_protocol_grpc_web_grpcWebProtocol_framedWrite : List String :=
-  ["5", "0", "call:binary.BigEndian.PutUint32", "slice", "1", "5", "call:uint32", "call:len", 
+  ["=tmp", "5", "0", "call:binary.BigEndian.PutUint32", "slice", "1", "5", "call:uint32", "call:len", 
     "return", "call:gwp.write", "call:append", "slice"]
 def fp_drpchttp_protocol_grpc_web_grpcWebStream_MsgSend : List String :=
-  ["call:gws.gwp.marshal", "if", "!=", "return", "if", ">=", "call:len", "return", "call:errs.New", 
-    "s:message too large", "if", "call:gws.gwp.framedWrite", "0", "!=", "return", "if", "call:fl.Flush", 
-    "return"]
+  ["=data", "=err", "call:gws.gwp.marshal", "if", "!=", "return", "if", ">=", "call:len", "return", 
+    "call:errs.New", "s:message too large", "if", "=err", "call:gws.gwp.framedWrite", "0", "!=", 
+    "return", "if", "=fl", "=ok", "call:fl.Flush", "return"]
 def fp_drpchttp_protocol_grpc_web_grpcWebStream_Finish : List String :=
-  ["call:strconv.FormatUint", "call:drpcerr.Code", "10", "if", "&&", "!=", "==", "s:0", "s:2", 
-    "call:buf.WriteString", "call:buf.WriteString", "s:: ", "call:buf.WriteString", "call:textproto.TrimString", 
-    "call:nlSpace.Replace", "call:buf.WriteString", "s:\r\n", "call:write", "s:grpc-status", "if", 
-    "!=", "call:write", "s:grpc-code", "call:getCode", "call:write", "s:grpc-message", "call:err.Error", 
-    "call:gws.gwp.framedWrite", "128", "call:buf.Bytes"]
+  ["=status", "call:strconv.FormatUint", "call:drpcerr.Code", "10", "if", "&&", "!=", "==", "s:0", 
+    "=status", "s:2", "=write", "call:buf.WriteString", "call:buf.WriteString", "s:: ", "call:buf.WriteString", 
+    "call:textproto.TrimString", "call:nlSpace.Replace", "call:buf.WriteString", "s:\r\n", "call:write", 
+    "s:grpc-status", "if", "!=", "call:write", "s:grpc-code", "call:getCode", "call:write", "s:grpc-message", 
+    "call:err.Error", "=_", "call:gws.gwp.framedWrite", "128", "call:buf.Bytes"]
 def fp_drpchttp_protocol_twirp_twirpStream_MsgSend : List String :=
-  ["if", "!=", "return", "call:ts.tp.marshal", "call:setErrorOrEOF", "u&", "return"]
+  ["if", "!=", "return", "=ts.response", "=err", "call:ts.tp.marshal", "call:setErrorOrEOF", "u&", 
+    "return"]
 def fp_drpchttp_protocol_twirp_twirpStream_MsgRecv : List String :=
-  ["if", "!=", "return", "call:twirpRead", "call:setErrorOrEOF", "u&", "if", "!=", "return", "return", 
-    "call:ts.tp.unmarshal"]
+  ["if", "!=", "return", "=buf", "=err", "call:twirpRead", "call:setErrorOrEOF", "u&", "if", "!=", 
+    "return", "return", "call:ts.tp.unmarshal"]
 def fp_drpchttp_protocol_twirp_twirpStream_Finish : List String :=
-  ["if", "==", "call:ts.rw.WriteHeader", "call:ts.rw.Write", "return", "call:getCode", "index", 
-    "if", "==", "0", "500", "call:json.MarshalIndent", "s:code", "s:msg", "call:err.Error", "s:", 
-    "s:    ", "if", "!=", "call:http.Error", "s:", "return", "call:ts.rw.Header().Set", "call:ts.rw.Header", 
-    "s:Content-Type", "s:application/json", "call:ts.rw.WriteHeader", "call:ts.rw.Write"]
+  ["if", "==", "call:ts.rw.WriteHeader", "=_", "=_", "call:ts.rw.Write", "return", "=code", "call:getCode", 
+    "=status", "index", "if", "==", "0", "=status", "500", "=data", "=err", "call:json.MarshalIndent", 
+    "s:code", "s:msg", "call:err.Error", "s:", "s:    ", "if", "!=", "call:http.Error", "s:", "return", 
+    "call:ts.rw.Header().Set", "call:ts.rw.Header", "s:Content-Type", "s:application/json", "call:ts.rw.WriteHeader", 
+    "=_", "=_", "call:ts.rw.Write"]
 def fp_drpchttp_protocol_twirp_setErrorOrEOF : List String :=
-  ["if", "=="]
+  ["if", "==", "=err", "=*errp"]
 def fp_drpcsignal_signal_Signal_Signal : List String :=
   ["if", "!=", "&", "call:atomic.LoadUint32", "u&", "statusChannelCreated=1", "0", "call:drpcdebug.Point", 
     "s:signal.Signal.fast", "return", "return", "call:s.signalSlow"]
 def fp_drpcsignal_signal_Signal_signalSlow : List String :=
   ["call:drpcdebug.Point", "s:signal.signalSlow.enter", "call:s.mu.Lock", "call:drpcdebug.Point", 
-    "s:signal.signalSlow.locked", "if", "==", "&", "statusChannelCreated=1", "0", "call:make", 
-    "call:drpcdebug.Point", "s:signal.signalSlow.made", "call:atomic.StoreUint32", "u&", "|", "statusChannelCreated=1", 
-    "call:drpcdebug.Point", "s:signal.signalSlow.unlock", "call:s.mu.Unlock", "return"]
+    "s:signal.signalSlow.locked", "if", "=set", "==", "&", "statusChannelCreated=1", "0", "=s.ch", 
+    "call:make", "call:drpcdebug.Point", "s:signal.signalSlow.made", "call:atomic.StoreUint32", 
+    "u&", "|", "statusChannelCreated=1", "call:drpcdebug.Point", "s:signal.signalSlow.unlock", 
+    "call:s.mu.Unlock", "return"]
 def fp_drpcsignal_signal_Signal_Set : List String :=
   ["if", "!=", "&", "call:atomic.LoadUint32", "u&", "statusErrorSet=2", "0", "return", "return", 
     "call:s.setSlow"]
 def fp_drpcsignal_signal_Signal_setSlow : List String :=
   ["call:drpcdebug.Point", "s:signal.setSlow.enter", "call:s.mu.Lock", "call:drpcdebug.Point", 
-    "s:signal.setSlow.locked", "if", "==", "&", "statusErrorSet=2", "0", "call:drpcdebug.Point", 
-    "s:signal.setSlow.err", "if", "==", "&", "statusChannelCreated=1", "0", "call:drpcdebug.Point", 
-    "s:signal.setSlow.ch", "call:atomic.StoreUint32", "u&", "|", "statusErrorSet=2", "statusChannelCreated=1", 
-    "call:drpcdebug.Point", "s:signal.setSlow.stored", "if", "!=", "&", "statusChannelCreated=1", 
-    "0", "call:close", "call:drpcdebug.Point", "s:signal.setSlow.unlock", "call:s.mu.Unlock", "return"]
+    "s:signal.setSlow.locked", "if", "=status", "==", "&", "statusErrorSet=2", "0", "=ok", "=s.err", 
+    "call:drpcdebug.Point", "s:signal.setSlow.err", "if", "==", "&", "statusChannelCreated=1", 
+    "0", "=s.ch", "call:drpcdebug.Point", "s:signal.setSlow.ch", "call:atomic.StoreUint32", "u&", 
+    "|", "statusErrorSet=2", "statusChannelCreated=1", "call:drpcdebug.Point", "s:signal.setSlow.stored", 
+    "if", "!=", "&", "statusChannelCreated=1", "0", "call:close", "call:drpcdebug.Point", "s:signal.setSlow.unlock", 
+    "call:s.mu.Unlock", "return"]
 def fp_drpcsignal_signal_Signal_Get : List String :=
   ["if", "!=", "&", "call:atomic.LoadUint32", "u&", "statusErrorSet=2", "0", "call:drpcdebug.Point", 
     "s:signal.Get.fast", "return", "return"]
@@ -191,6 +209,12 @@ def fp_drpcsignal_signal_Signal_IsSet : List String :=
 def fp_drpcsignal_signal_Signal_Err : List String :=
   ["if", "!=", "&", "call:atomic.LoadUint32", "u&", "statusErrorSet=2", "0", "call:drpcdebug.Point", 
     "s:signal.Err.fast", "return", "return"]
+def fp_drpcsignal_signal_Signal_Wait : List String :=
+  ["u<-", "call:s.Signal"]
+def fp_drpcsignal_chan_Chan_setFresh : List String :=
+  ["=c.ch", "call:make"]
+def fp_drpcsignal_chan_Chan_setClosed : List String :=
+  ["=c.ch"]
 def fp_drpcsignal_chan_Chan_do : List String :=
   ["return", "&&", "==", "call:atomic.LoadUint32", "u&", "0", "call:c.doSlow"]
 def fp_drpcsignal_chan_Chan_doSlow : List String :=
@@ -200,7 +224,7 @@ def fp_drpcsignal_chan_Chan_doSlow : List String :=
 def fp_drpcsignal_chan_Chan_Close : List String :=
   ["if", "u!", "call:c.do", "call:drpcdebug.Point", "s:chan.Close.close", "call:close"]
 def fp_drpcsignal_chan_Chan_Make : List String :=
-  ["call:c.do", "call:make"]
+  ["call:c.do", "=c.ch", "call:make"]
 def fp_drpcsignal_chan_Chan_Get : List String :=
   ["call:c.do", "call:drpcdebug.Point", "s:chan.Get.read", "return"]
 def fp_drpcsignal_chan_Chan_Send : List String :=
@@ -210,15 +234,16 @@ def fp_drpcsignal_chan_Chan_Recv : List String :=
 def fp_drpcsignal_chan_Chan_Full : List String :=
   ["call:c.do", "select", "send", "u<-", "return", "return"]
 def fp_drpcstream_pktbuf_packetBuffer_Close : List String :=
-  ["call:pb.mu.Lock", "defer", "call:pb.mu.Unlock", "for", "call:pb.cond.Wait", "if", "==", "call:pb.cond.Broadcast"]
+  ["call:pb.mu.Lock", "defer", "call:pb.mu.Unlock", "for", "call:pb.cond.Wait", "if", "==", "=pb.data", 
+    "=pb.set", "=pb.err", "call:pb.cond.Broadcast"]
 def fp_drpcstream_pktbuf_packetBuffer_Put : List String :=
   ["call:pb.mu.Lock", "defer", "call:pb.mu.Unlock", "for", "&&", "==", "call:pb.cond.Wait", "if", 
-    "!=", "return", "call:pb.cond.Broadcast", "for", "||", "call:pb.cond.Wait"]
+    "!=", "return", "=pb.data", "=pb.set", "=pb.held", "call:pb.cond.Broadcast", "for", "||", "call:pb.cond.Wait"]
 def fp_drpcstream_pktbuf_packetBuffer_Get : List String :=
   ["call:pb.mu.Lock", "defer", "call:pb.mu.Unlock", "for", "&&", "u!", "==", "call:pb.cond.Wait", 
-    "if", "!=", "return", "call:pb.cond.Broadcast", "return"]
+    "if", "!=", "return", "=pb.held", "call:pb.cond.Broadcast", "return"]
 def fp_drpcstream_pktbuf_packetBuffer_Done : List String :=
-  ["call:pb.mu.Lock", "defer", "call:pb.mu.Unlock", "call:pb.cond.Broadcast"]
+  ["call:pb.mu.Lock", "defer", "call:pb.mu.Unlock", "=pb.data", "=pb.set", "=pb.held", "call:pb.cond.Broadcast"]
 def fp_drpcstream_inspectmu_inspectMutex_Lock : List String :=
   ["call:m.Mutex.Lock", "call:atomic.StoreUint32", "u&", "1"]
 def fp_drpcstream_inspectmu_inspectMutex_TryLock : List String :=
@@ -231,12 +256,12 @@ def fp_drpcstream_stream_Stream_HandlePacket : List String :=
   ["if", "!=", "return", "call:drpcopts.GetStreamStats().AddRead", "call:drpcopts.GetStreamStats", 
     "u&", "call:uint64", "call:len", "if", "call:s.sigs.term.IsSet", "return", "call:s.log", "s:HANDLE", 
     "if", "==", "call:s.pbuf.Put", "return", "call:s.mu.Lock", "defer", "call:s.mu.Unlock", "switch", 
-    "case", "call:drpc.ProtocolError.New", "s:invoke on existing stream", "call:s.terminate", "return", 
-    "case", "call:drpcwire.UnmarshalError", "call:s.sigs.send.Set", "call:s.terminate", "return", 
-    "case", "call:s.sigs.cancel.Set", "call:s.sigs.send.Set", "call:s.terminate", "return", "case", 
-    "call:s.sigs.recv.Set", "call:s.pbuf.Close", "call:s.terminate", "call:drpc.ClosedError.New", 
+    "case", "=err", "call:drpc.ProtocolError.New", "s:invoke on existing stream", "call:s.terminate", 
+    "return", "case", "=err", "call:drpcwire.UnmarshalError", "call:s.sigs.send.Set", "call:s.terminate", 
+    "return", "case", "=err", "call:s.sigs.cancel.Set", "call:s.sigs.send.Set", "call:s.terminate", 
+    "return", "case", "call:s.sigs.recv.Set", "call:s.pbuf.Close", "call:s.terminate", "call:drpc.ClosedError.New", 
     "s:remote closed the stream", "return", "case", "call:s.sigs.recv.Set", "call:s.pbuf.Close", 
-    "call:s.terminateIfBothClosed", "return", "default", "if", "return", "call:drpc.InternalError.New", 
+    "call:s.terminateIfBothClosed", "return", "default", "if", "return", "=err", "call:drpc.InternalError.New", 
     "s:unknown packet kind: %s", "call:s.terminate", "return"]
 def fp_drpcstream_stream_Stream_checkFinished : List String :=
   ["if", "&&", "&&", "call:s.sigs.term.IsSet", "call:s.write.Unlocked", "call:s.read.Unlocked", 
@@ -247,9 +272,10 @@ def fp_drpcstream_stream_Stream_checkCancelError : List String :=
 def fp_drpcstream_stream_Stream_newFrameLocked : List String :=
   ["++", "return"]
 def fp_drpcstream_stream_Stream_sendPacketLocked : List String :=
-  ["call:s.newFrameLocked", "call:drpcopts.GetStreamStats().AddWritten", "call:drpcopts.GetStreamStats", 
-    "u&", "call:uint64", "call:len", "call:s.log", "s:SEND", "if", "call:s.wr.WriteFrame", "!=", 
-    "return", "call:errs.Wrap", "if", "call:s.wr.Flush", "!=", "return", "call:errs.Wrap", "return"]
+  ["=fr", "call:s.newFrameLocked", "=fr.Data", "=fr.Control", "=fr.Done", "call:drpcopts.GetStreamStats().AddWritten", 
+    "call:drpcopts.GetStreamStats", "u&", "call:uint64", "call:len", "call:s.log", "s:SEND", "if", 
+    "=err", "call:s.wr.WriteFrame", "!=", "return", "call:errs.Wrap", "if", "=err", "call:s.wr.Flush", 
+    "!=", "return", "call:errs.Wrap", "return"]
 def fp_drpcstream_stream_Stream_terminateIfBothClosed : List String :=
   ["if", "&&", "call:s.sigs.send.IsSet", "call:s.sigs.recv.IsSet", "call:s.terminate"]
 def fp_drpcstream_stream_Stream_terminate : List String :=
@@ -259,11 +285,12 @@ def fp_drpcstream_stream_Stream_RawWrite : List String :=
   ["defer", "call:s.checkFinished", "call:s.write.Lock", "defer", "call:s.write.Unlock", "return", 
     "call:s.rawWriteLocked"]
 def fp_drpcstream_stream_Stream_rawWriteLocked : List String :=
-  ["call:s.newFrameLocked", "for", "switch", "case", "call:s.sigs.send.IsSet", "return", "call:s.sigs.send.Err", 
-    "case", "call:s.sigs.term.IsSet", "return", "call:s.sigs.term.Err", "call:drpcwire.SplitData", 
-    "==", "call:len", "0", "call:drpcopts.GetStreamStats().AddWritten", "call:drpcopts.GetStreamStats", 
-    "u&", "call:uint64", "call:len", "call:s.log", "s:SEND", "if", "call:s.wr.WriteFrame", "!=", 
-    "return", "call:s.checkCancelError", "call:errs.Wrap", "if", "return"]
+  ["=fr", "call:s.newFrameLocked", "=n", "for", "switch", "case", "call:s.sigs.send.IsSet", "return", 
+    "call:s.sigs.send.Err", "case", "call:s.sigs.term.IsSet", "return", "call:s.sigs.term.Err", 
+    "=fr.Data", "=data", "call:drpcwire.SplitData", "=fr.Done", "==", "call:len", "0", "call:drpcopts.GetStreamStats().AddWritten", 
+    "call:drpcopts.GetStreamStats", "u&", "call:uint64", "call:len", "call:s.log", "s:SEND", "if", 
+    "=err", "call:s.wr.WriteFrame", "!=", "return", "call:s.checkCancelError", "call:errs.Wrap", 
+    "if", "return"]
 def fp_drpcstream_stream_Stream_RawFlush : List String :=
   ["defer", "call:s.checkFinished", "call:s.write.Lock", "defer", "call:s.write.Unlock", "return", 
     "call:s.rawFlushLocked"]
@@ -273,21 +300,21 @@ def fp_drpcstream_stream_Stream_rawFlushLocked : List String :=
     "case", "call:s.sigs.term.IsSet", "return", "call:s.sigs.term.Err", "call:s.log", "s:FLUSH", 
     "return", "s:", "return", "call:s.checkCancelError", "call:errs.Wrap", "call:s.wr.Flush"]
 def fp_drpcstream_stream_Stream_checkRecvFlush : List String :=
-  ["call:s.flush.Do", "call:s.RawFlush", "if", "&&", "&&", "==", "u!", "call:s.wr.Empty", "call:s.RawFlush", 
-    "if", "&&", "!=", "call:s.sigs.term.IsSet", "return", "return"]
+  ["call:s.flush.Do", "=err", "call:s.RawFlush", "if", "&&", "&&", "==", "u!", "call:s.wr.Empty", 
+    "=err", "call:s.RawFlush", "if", "&&", "!=", "call:s.sigs.term.IsSet", "return", "return"]
 def fp_drpcstream_stream_Stream_RawRecv : List String :=
-  ["if", "call:s.checkRecvFlush", "!=", "return", "defer", "call:s.checkFinished", "call:s.read.Lock", 
-    "defer", "call:s.read.Unlock", "call:s.pbuf.Get", "if", "!=", "return", "call:append", "call:[]byte", 
-    "call:s.pbuf.Done", "return"]
+  ["if", "=err", "call:s.checkRecvFlush", "!=", "return", "defer", "call:s.checkFinished", "call:s.read.Lock", 
+    "defer", "call:s.read.Unlock", "=data", "=err", "call:s.pbuf.Get", "if", "!=", "return", "=data", 
+    "call:append", "call:[]byte", "call:s.pbuf.Done", "return"]
 def fp_drpcstream_stream_Stream_MsgSend : List String :=
   ["call:s.flush.Do", "defer", "call:s.checkFinished", "call:s.write.Lock", "defer", "call:s.write.Unlock", 
-    "call:drpcenc.MarshalAppend", "slice", "0", "if", "!=", "return", "call:errs.Wrap", "if", "||", 
-    "==", "0", "<", "call:len", "if", "call:s.rawWriteLocked", "!=", "return", "if", "u!", "return", 
-    "call:s.rawFlushLocked", "return"]
+    "=wbuf", "=err", "call:drpcenc.MarshalAppend", "slice", "0", "if", "!=", "return", "call:errs.Wrap", 
+    "if", "||", "==", "0", "<", "call:len", "=s.wbuf", "if", "=err", "call:s.rawWriteLocked", "!=", 
+    "return", "if", "u!", "return", "call:s.rawFlushLocked", "return"]
 def fp_drpcstream_stream_Stream_MsgRecv : List String :=
-  ["if", "call:s.checkRecvFlush", "!=", "return", "defer", "call:s.checkFinished", "call:s.read.Lock", 
-    "defer", "call:s.read.Unlock", "call:s.pbuf.Get", "if", "!=", "return", "call:enc.Unmarshal", 
-    "call:s.pbuf.Done", "return"]
+  ["if", "=err", "call:s.checkRecvFlush", "!=", "return", "defer", "call:s.checkFinished", "call:s.read.Lock", 
+    "defer", "call:s.read.Unlock", "=data", "=err", "call:s.pbuf.Get", "if", "!=", "return", "=err", 
+    "call:enc.Unmarshal", "call:s.pbuf.Done", "return"]
 def fp_drpcstream_stream_Stream_SendError : List String :=
   ["call:s.log", "s:CALL", "return", "call:fmt.Sprintf", "s:SendError(%v)", "call:s.mu.Lock", 
     "if", "call:s.sigs.term.IsSet", "call:s.mu.Unlock", "return", "defer", "call:s.checkFinished", 
@@ -314,70 +341,74 @@ def fp_drpcstream_stream_Stream_Cancel : List String :=
     "call:s.mu.Unlock", "if", "call:s.IsFinished", "return", "call:s.sigs.cancel.Set", "call:s.sigs.send.Set", 
     "call:s.terminate", "return"]
 def fp_drpcstream_stream_NewWithOptions : List String :=
-  ["if", "call:trace.IsEnabled", "call:drpcopts.GetStreamKind", "u&", "call:drpcopts.GetStreamRPC", 
-    "u&", "if", "&&", "!=", "s:", "!=", "s:", "call:trace.NewTask", "+", "u&", "call:drpcopts.GetStreamTransport", 
-    "u&", "call:drpcopts.GetStreamFin", "u&", "call:wr.Reset", "call:s.pbuf.init", "return"]
+  ["if", "call:trace.IsEnabled", "=kind", "=rpc", "call:drpcopts.GetStreamKind", "u&", "call:drpcopts.GetStreamRPC", 
+    "u&", "if", "&&", "!=", "s:", "!=", "s:", "=ctx", "=task", "call:trace.NewTask", "+", "=s", 
+    "u&", "call:drpcopts.GetStreamTransport", "u&", "call:drpcopts.GetStreamFin", "u&", "call:wr.Reset", 
+    "call:s.pbuf.init", "return"]
 def fp_drpcmanager_manager_NewWithOptions : List String :=
-  ["u&", "call:drpcwire.NewWriter", "call:drpcwire.NewReaderWithOptions", "call:make", "call:make", 
+  ["=m", "u&", "call:drpcwire.NewWriter", "call:drpcwire.NewReaderWithOptions", "call:make", "call:make", 
     "1", "call:make", "call:m.sbuf.init", "call:m.sem.Make", "1", "call:m.pdone.Make", "1", "call:drpcopts.SetStreamTransport", 
     "u&", "call:drpcopts.SetStreamFin", "u&", "go", "call:m.manageReader", "go", "call:m.manageStreams", 
     "return"]
 def fp_drpcmanager_manager_Manager_acquireSemaphore : List String :=
-  ["if", "call:m.sigs.term.Get", "return", "if", "call:ctx.Err", "!=", "return", "select", "u<-", 
-    "call:ctx.Done", "return", "call:ctx.Err", "u<-", "call:m.sigs.term.Signal", "return", "call:m.sigs.term.Err", 
-    "send", "call:m.sem.Get", "if", "call:m.waitForPreviousStream", "!=", "call:m.sem.Recv", "return", 
-    "return"]
+  ["if", "=err", "=ok", "call:m.sigs.term.Get", "return", "if", "=err", "call:ctx.Err", "!=", 
+    "return", "select", "u<-", "call:ctx.Done", "return", "call:ctx.Err", "u<-", "call:m.sigs.term.Signal", 
+    "return", "call:m.sigs.term.Err", "send", "call:m.sem.Get", "if", "=err", "call:m.waitForPreviousStream", 
+    "!=", "call:m.sem.Recv", "return", "return"]
 def fp_drpcmanager_manager_Manager_waitForPreviousStream : List String :=
-  ["call:m.sbuf.Get", "if", "==", "return", "if", "call:prev.IsFinished", "return", "call:m.log", 
+  ["=prev", "call:m.sbuf.Get", "if", "==", "return", "if", "call:prev.IsFinished", "return", "call:m.log", 
     "s:WAIT", "select", "u<-", "call:ctx.Done", "return", "call:ctx.Err", "u<-", "call:m.sigs.term.Signal", 
     "return", "call:m.sigs.term.Err", "u<-", "call:prev.Finished", "return"]
 def fp_drpcmanager_manager_Manager_terminate : List String :=
   ["if", "call:m.sigs.term.Set", "call:m.log", "s:TERM", "return", "call:fmt.Sprint", "call:m.sigs.tport.Set", 
     "call:m.tr.Close", "call:m.sbuf.Close"]
 def fp_drpcmanager_manager_Manager_manageReader : List String :=
-  ["defer", "call:m.sigs.read.Set", "for", "u!", "call:m.sigs.term.IsSet", "if", ">", "10", "0", 
-    "call:m.rd.ReadPacketUsing", "slice", "0", "if", "!=", "if", "call:isConnectionReset", "call:drpc.ClosedError.Wrap", 
-    "call:m.terminate", "call:managerClosed.Wrap", "return", "if", "<", "call:len", "/", "call:cap", 
-    "4", "++", "0", "call:m.log", "s:READ", "switch", "call:m.sbuf.Get", "case", "&&", "!=", "==", 
-    "call:curr.ID", "if", "call:curr.HandlePacket", "!=", "call:m.terminate", "call:managerClosed.Wrap", 
-    "return", "case", "&&", "!=", "<", "call:curr.ID", "case", "||", "==", "==", "if", "&&", "!=", 
-    "u!", "call:curr.IsTerminated", "call:curr.Cancel", "select", "send", "call:m.pdone.Recv", 
-    "u<-", "call:m.sigs.term.Signal", "return", "default", "if", "&&", "!=", "u!", "call:curr.IsTerminated", 
-    "call:curr.Cancel", "if", "u!", "call:m.sbuf.Wait", "call:curr.ID", "return", "goto"]
+  ["defer", "call:m.sigs.read.Set", "for", "u!", "call:m.sigs.term.IsSet", "if", ">", "10", "=pkt.Data", 
+    "=run", "0", "=pkt", "=err", "call:m.rd.ReadPacketUsing", "slice", "0", "if", "!=", "if", "call:isConnectionReset", 
+    "=err", "call:drpc.ClosedError.Wrap", "call:m.terminate", "call:managerClosed.Wrap", "return", 
+    "if", "<", "call:len", "/", "call:cap", "4", "++", "=run", "0", "call:m.log", "s:READ", "switch", 
+    "=curr", "call:m.sbuf.Get", "case", "&&", "!=", "==", "call:curr.ID", "if", "=err", "call:curr.HandlePacket", 
+    "!=", "call:m.terminate", "call:managerClosed.Wrap", "return", "case", "&&", "!=", "<", "call:curr.ID", 
+    "case", "||", "==", "==", "if", "&&", "!=", "u!", "call:curr.IsTerminated", "call:curr.Cancel", 
+    "select", "send", "call:m.pdone.Recv", "u<-", "call:m.sigs.term.Signal", "return", "default", 
+    "if", "&&", "!=", "u!", "call:curr.IsTerminated", "call:curr.Cancel", "if", "u!", "call:m.sbuf.Wait", 
+    "call:curr.ID", "return", "goto"]
 def fp_drpcmanager_manager_Manager_newStream : List String :=
-  ["call:drpcopts.SetStreamKind", "u&", "call:drpcopts.SetStreamRPC", "u&", "if", "call:drpcopts.GetManagerStatsCB", 
-    "u&", "!=", "call:drpcopts.SetStreamStats", "u&", "call:cb", "call:drpcstream.NewWithOptions", 
-    "select", "send", "call:m.sbuf.Set", "call:m.log", "s:STREAM", "return", "u<-", "call:m.sigs.term.Signal", 
-    "return", "call:m.sigs.term.Err"]
+  ["=opts", "call:drpcopts.SetStreamKind", "u&", "call:drpcopts.SetStreamRPC", "u&", "if", "=cb", 
+    "call:drpcopts.GetManagerStatsCB", "u&", "!=", "call:drpcopts.SetStreamStats", "u&", "call:cb", 
+    "=stream", "call:drpcstream.NewWithOptions", "select", "send", "call:m.sbuf.Set", "call:m.log", 
+    "s:STREAM", "return", "u<-", "call:m.sigs.term.Signal", "return", "call:m.sigs.term.Err"]
 def fp_drpcmanager_manager_Manager_manageStreams : List String :=
-  ["defer", "call:m.sigs.stream.Set", "for", "select", "u<-", "call:m.manageStream", "u<-", "call:m.sigs.term.Signal", 
-    "return"]
+  ["defer", "call:m.sigs.stream.Set", "for", "select", "=si", "u<-", "call:m.manageStream", "u<-", 
+    "call:m.sigs.term.Signal", "return"]
 def fp_drpcmanager_manager_Manager_manageStream : List String :=
-  ["select", "u<-", "call:m.sigs.term.Signal", "call:m.sigs.term.Err", "if", "call:errors.Is", 
-    "call:stream.Cancel", "u<-", "call:m.sem.Recv", "u<-", "call:m.sem.Recv", "u<-", "call:ctx.Done", 
-    "call:m.log", "s:CANCEL", "if", "call:m.sem.Recv", "if", "call:stream.SendCancel", "call:ctx.Err", 
-    "!=", "call:m.terminate", "if", "call:m.log", "s:BUSY", "call:m.terminate", "call:ctx.Err", 
-    "call:stream.Cancel", "call:ctx.Err", "u<-", "if", "u!", "call:stream.Cancel", "call:ctx.Err", 
-    "call:m.log", "s:UNFIN", "call:m.terminate", "call:ctx.Err", "call:m.log", "s:CLEAN", "u<-", 
-    "call:m.sem.Recv"]
+  ["select", "u<-", "call:m.sigs.term.Signal", "=err", "call:m.sigs.term.Err", "if", "call:errors.Is", 
+    "=err", "call:stream.Cancel", "u<-", "call:m.sem.Recv", "u<-", "call:m.sem.Recv", "u<-", "call:ctx.Done", 
+    "call:m.log", "s:CANCEL", "if", "call:m.sem.Recv", "if", "=busy", "=err", "call:stream.SendCancel", 
+    "call:ctx.Err", "!=", "call:m.terminate", "if", "call:m.log", "s:BUSY", "call:m.terminate", 
+    "call:ctx.Err", "call:stream.Cancel", "call:ctx.Err", "u<-", "if", "u!", "call:stream.Cancel", 
+    "call:ctx.Err", "call:m.log", "s:UNFIN", "call:m.terminate", "call:ctx.Err", "call:m.log", 
+    "s:CLEAN", "u<-", "call:m.sem.Recv"]
 def fp_drpcmanager_manager_Manager_Close : List String :=
   ["call:m.terminate", "call:managerClosed.New", "s:Close called", "call:m.sigs.stream.Wait", 
     "call:m.sigs.read.Wait", "call:m.sigs.tport.Wait", "return", "call:m.sigs.tport.Err"]
 def fp_drpcmanager_manager_Manager_NewClientStream : List String :=
-  ["if", "call:m.acquireSemaphore", "!=", "return", "return", "call:m.newStream", "+", "call:m.sbuf.Get().ID", 
-    "call:m.sbuf.Get", "1", "s:cli"]
+  ["if", "=err", "call:m.acquireSemaphore", "!=", "return", "return", "call:m.newStream", "+", 
+    "call:m.sbuf.Get().ID", "call:m.sbuf.Get", "1", "s:cli"]
 def fp_drpcmanager_manager_Manager_NewServerStream : List String :=
-  ["if", "call:m.acquireSemaphore", "!=", "return", "s:", "defer", "call:func", "if", "!=", "call:m.sem.Recv", 
-    "if", ">", "0", "call:time.NewTimer", "defer", "call:timer.Stop", "for", "select", "u<-", "return", 
-    "s:", "u<-", "call:ctx.Done", "return", "s:", "call:ctx.Err", "u<-", "call:m.sigs.term.Signal", 
-    "return", "s:", "call:m.sigs.term.Err", "u<-", "switch", "case", "call:drpcmetadata.Decode", 
-    "call:m.pdone.Send", "if", "!=", "return", "s:", "case", "call:string", "call:m.pdone.Send", 
-    "if", "==", "call:drpcmetadata.AddPairs", "call:m.newStream", "s:srv", "return", "default", 
-    "call:m.pdone.Send"]
+  ["if", "=err", "call:m.acquireSemaphore", "!=", "return", "s:", "defer", "call:func", "if", 
+    "!=", "call:m.sem.Recv", "if", "=timeout", ">", "0", "=timer", "call:time.NewTimer", "defer", 
+    "call:timer.Stop", "=timeoutCh", "for", "select", "u<-", "return", "s:", "u<-", "call:ctx.Done", 
+    "return", "s:", "call:ctx.Err", "u<-", "call:m.sigs.term.Signal", "return", "s:", "call:m.sigs.term.Err", 
+    "=pkt", "u<-", "switch", "case", "=meta", "=err", "call:drpcmetadata.Decode", "call:m.pdone.Send", 
+    "if", "!=", "return", "s:", "=metaID", "case", "=rpc", "call:string", "call:m.pdone.Send", 
+    "if", "==", "=ctx", "call:drpcmetadata.AddPairs", "=stream", "=err", "call:m.newStream", "s:srv", 
+    "return", "default", "call:m.pdone.Send"]
 def fp_drpcmanager_manager_Manager_Unblocked : List String :=
-  ["if", "call:m.sbuf.Get", "!=", "return", "call:prev.Context().Done", "call:prev.Context", "return"]
+  ["if", "=prev", "call:m.sbuf.Get", "!=", "return", "call:prev.Context().Done", "call:prev.Context", 
+    "return"]
 def fp_drpcmanager_streambuf_streamBuffer_Close : List String :=
-  ["call:sb.mu.Lock", "defer", "call:sb.mu.Unlock", "call:sb.cond.Broadcast"]
+  ["call:sb.mu.Lock", "defer", "call:sb.mu.Unlock", "=sb.closed", "call:sb.cond.Broadcast"]
 def fp_drpcmanager_streambuf_streamBuffer_Set : List String :=
   ["call:sb.mu.Lock", "defer", "call:sb.mu.Unlock", "if", "return", "call:sb.stream.Store", "call:sb.cond.Broadcast"]
 def fp_drpcmanager_streambuf_streamBuffer_Wait : List String :=
@@ -386,119 +417,134 @@ def fp_drpcmanager_streambuf_streamBuffer_Wait : List String :=
 def fp_drpcmanager_streambuf_streamBuffer_Get : List String :=
   ["return", "call:sb.stream.Load"]
 def fp_drpcconn_conn_Conn_Invoke : List String :=
-  ["if", "call:drpcmetadata.Get", "call:drpcmetadata.Encode", "if", "!=", "return", "call:c.man.NewClientStream", 
-    "if", "!=", "return", "defer", "call:func", "call:errs.Combine", "call:stream.Close", "call:c.mu.Lock", 
-    "defer", "call:c.mu.Unlock", "call:drpcenc.MarshalAppend", "slice", "0", "if", "!=", "return", 
-    "if", "call:c.doInvoke", "!=", "return", "return"]
+  ["if", "=md", "=ok", "call:drpcmetadata.Get", "=metadata", "=err", "call:drpcmetadata.Encode", 
+    "if", "!=", "return", "=stream", "=err", "call:c.man.NewClientStream", "if", "!=", "return", 
+    "defer", "call:func", "=err", "call:errs.Combine", "call:stream.Close", "call:c.mu.Lock", "defer", 
+    "call:c.mu.Unlock", "=c.wbuf", "=err", "call:drpcenc.MarshalAppend", "slice", "0", "if", "!=", 
+    "return", "if", "=err", "call:c.doInvoke", "!=", "return", "return"]
 def fp_drpcconn_conn_Conn_doInvoke : List String :=
-  ["if", ">", "call:len", "0", "if", "call:stream.RawWrite", "!=", "return", "if", "call:stream.RawWrite", 
-    "call:[]byte", "!=", "return", "if", "call:stream.RawWrite", "!=", "return", "if", "call:stream.CloseSend", 
-    "!=", "return", "if", "call:stream.MsgRecv", "!=", "return", "return"]
+  ["if", ">", "call:len", "0", "if", "=err", "call:stream.RawWrite", "!=", "return", "if", "=err", 
+    "call:stream.RawWrite", "call:[]byte", "!=", "return", "if", "=err", "call:stream.RawWrite", 
+    "!=", "return", "if", "=err", "call:stream.CloseSend", "!=", "return", "if", "=err", "call:stream.MsgRecv", 
+    "!=", "return", "return"]
 def fp_drpcconn_conn_Conn_NewStream : List String :=
-  ["if", "call:drpcmetadata.Get", "call:drpcmetadata.Encode", "if", "!=", "return", "call:c.man.NewClientStream", 
-    "if", "!=", "return", "if", "call:c.doNewStream", "!=", "return", "call:errs.Combine", "call:stream.Close", 
+  ["if", "=md", "=ok", "call:drpcmetadata.Get", "=metadata", "=err", "call:drpcmetadata.Encode", 
+    "if", "!=", "return", "=stream", "=err", "call:c.man.NewClientStream", "if", "!=", "return", 
+    "if", "=err", "call:c.doNewStream", "!=", "return", "call:errs.Combine", "call:stream.Close", 
     "return"]
 def fp_drpcconn_conn_Conn_doNewStream : List String :=
-  ["if", ">", "call:len", "0", "if", "call:stream.RawWrite", "!=", "return", "if", "call:stream.RawWrite", 
-    "call:[]byte", "!=", "return", "return"]
+  ["if", ">", "call:len", "0", "if", "=err", "call:stream.RawWrite", "!=", "return", "if", "=err", 
+    "call:stream.RawWrite", "call:[]byte", "!=", "return", "return"]
 def fp_drpcserver_server_Server_ServeOne : List String :=
-  ["call:drpcmanager.NewWithOptions", "defer", "call:func", "call:errs.Combine", "call:man.Close", 
-    "call:drpccache.New", "defer", "call:cache.Clear", "call:drpccache.WithContext", "for", "call:man.NewServerStream", 
-    "if", "!=", "return", "call:errs.Wrap", "if", "call:s.handleRPC", "!=", "return", "call:errs.Wrap"]
+  ["=man", "call:drpcmanager.NewWithOptions", "defer", "call:func", "=err", "call:errs.Combine", 
+    "call:man.Close", "=cache", "call:drpccache.New", "defer", "call:cache.Clear", "=ctx", "call:drpccache.WithContext", 
+    "for", "=stream", "=rpc", "=err", "call:man.NewServerStream", "if", "!=", "return", "call:errs.Wrap", 
+    "if", "=err", "call:s.handleRPC", "!=", "return", "call:errs.Wrap"]
 def fp_drpcserver_server_Server_Serve : List String :=
-  ["call:drpcctx.NewTracker", "defer", "call:tracker.Wait", "defer", "call:tracker.Cancel", "call:tracker.Run", 
-    "u<-", "call:ctx.Done", "call:lis.Close", "for", "call:lis.Accept", "if", "!=", "if", "!=", 
-    "call:ctx.Err", "return", "if", "call:isTemporary", "if", "!=", "call:s.opts.Log", "call:time.NewTimer", 
-    "select", "u<-", "u<-", "call:ctx.Done", "call:t.Stop", "return", "continue", "return", "call:errs.Wrap", 
-    "call:tracker.Run", "call:s.ServeOne", "if", "&&", "!=", "!=", "call:s.opts.Log"]
+  ["=tracker", "call:drpcctx.NewTracker", "defer", "call:tracker.Wait", "defer", "call:tracker.Cancel", 
+    "call:tracker.Run", "u<-", "call:ctx.Done", "=_", "call:lis.Close", "for", "=conn", "=err", 
+    "call:lis.Accept", "if", "!=", "if", "!=", "call:ctx.Err", "return", "if", "call:isTemporary", 
+    "if", "!=", "call:s.opts.Log", "=t", "call:time.NewTimer", "select", "u<-", "u<-", "call:ctx.Done", 
+    "call:t.Stop", "return", "continue", "return", "call:errs.Wrap", "call:tracker.Run", "=err", 
+    "call:s.ServeOne", "if", "&&", "!=", "!=", "call:s.opts.Log"]
 def fp_drpcserver_server_Server_handleRPC : List String :=
-  ["call:s.handler.HandleRPC", "if", "!=", "return", "call:errs.Wrap", "call:stream.SendError", 
-    "call:stream.CloseSend", "call:stream.Cancel", "return", "call:errs.Wrap"]
+  ["=err", "call:s.handler.HandleRPC", "if", "!=", "return", "call:errs.Wrap", "call:stream.SendError", 
+    "=err", "call:stream.CloseSend", "call:stream.Cancel", "return", "call:errs.Wrap"]
 def fp_drpcmux_handle_rpc_Mux_HandleRPC : List String :=
-  ["index", "if", "u!", "return", "call:drpc.ProtocolError.New", "s:unknown rpc: %q", "call:interface", 
-    "if", "!=", "call:reflect.New().Interface", "call:reflect.New", "call:data.in1.Elem", "if", 
-    "u!", "return", "call:drpc.InternalError.New", "s:invalid rpc input type", "if", "call:stream.MsgRecv", 
-    "!=", "return", "call:errs.Wrap", "call:data.receiver", "call:stream.Context", "switch", "case", 
-    "!=", "return", "call:errs.Wrap", "case", "&&", "!=", "u!", "call:reflect.ValueOf().IsNil", 
-    "call:reflect.ValueOf", "return", "call:stream.MsgSend", "default", "return", "call:stream.CloseSend"]
+  ["=data", "=ok", "index", "if", "u!", "return", "call:drpc.ProtocolError.New", "s:unknown rpc: %q", 
+    "=in", "call:interface", "if", "!=", "=msg", "=ok", "call:reflect.New().Interface", "call:reflect.New", 
+    "call:data.in1.Elem", "if", "u!", "return", "call:drpc.InternalError.New", "s:invalid rpc input type", 
+    "if", "=err", "call:stream.MsgRecv", "!=", "return", "call:errs.Wrap", "=in", "=out", "=err", 
+    "call:data.receiver", "call:stream.Context", "switch", "case", "!=", "return", "call:errs.Wrap", 
+    "case", "&&", "!=", "u!", "call:reflect.ValueOf().IsNil", "call:reflect.ValueOf", "return", 
+    "call:stream.MsgSend", "default", "return", "call:stream.CloseSend"]
 def fp_drpcmux_mux_Mux_registerOne : List String :=
-  ["switch", "call:reflect.TypeOf", "case", "==", "call:mt.NumOut", "2", "call:mt.In", "2", "if", 
-    "u!", "call:data.in1.Implements", "return", "call:errs.New", "s:input argument not a drpc message: %v", 
-    "case", "==", "call:mt.NumIn", "3", "call:mt.In", "1", "if", "u!", "call:data.in1.Implements", 
-    "return", "call:errs.New", "s:input argument not a drpc message: %v", "case", "==", "call:mt.NumIn", 
-    "2", "default", "return", "call:errs.New", "s:unknown method type: %v", "index", "return"]
+  ["=data", "switch", "=mt", "call:reflect.TypeOf", "case", "==", "call:mt.NumOut", "2", "=data.unitary", 
+    "=data.in1", "call:mt.In", "2", "if", "u!", "call:data.in1.Implements", "return", "call:errs.New", 
+    "s:input argument not a drpc message: %v", "case", "==", "call:mt.NumIn", "3", "=data.in1", 
+    "call:mt.In", "1", "if", "u!", "call:data.in1.Implements", "return", "call:errs.New", "s:input argument not a drpc message: %v", 
+    "=data.in2", "case", "==", "call:mt.NumIn", "2", "=data.in1", "default", "return", "call:errs.New", 
+    "s:unknown method type: %v", "=m.rpcs", "index", "return"]
 def fp_drpcmux_mux_Mux_Register : List String :=
-  ["call:desc.NumMethods", "for", "0", "<", "++", "call:desc.Method", "if", "u!", "return", "call:errs.New", 
-    "s:Description returned invalid method for index %d", "if", "call:m.registerOne", "!=", "return", 
-    "return"]
+  ["=n", "call:desc.NumMethods", "for", "=i", "0", "<", "++", "=rpc", "=enc", "=receiver", "=method", 
+    "=ok", "call:desc.Method", "if", "u!", "return", "call:errs.New", "s:Description returned invalid method for index %d", 
+    "if", "=err", "call:m.registerOne", "!=", "return", "return"]
 def fp_drpcpool_pool_Pool_Close : List String :=
-  ["call:p.mu.Lock", "defer", "call:p.mu.Unlock", "for", "!=", "call:eg.Add", "call:p.closeEntry", 
-    "call:make", "return", "call:eg.Err"]
+  ["call:p.mu.Lock", "defer", "call:p.mu.Unlock", "for", "=ent", "!=", "=ent", "call:eg.Add", 
+    "call:p.closeEntry", "=ent.global.removed", "=ent.local.removed", "=p.entries", "call:make", 
+    "=p.order", "return", "call:eg.Err"]
 def fp_drpcpool_pool_Pool_removeEntry : List String :=
-  ["call:p.mu.Lock", "defer", "call:p.mu.Unlock", "index", "if", "==", "return", "call:local.removeEntry", 
+  ["call:p.mu.Lock", "defer", "call:p.mu.Unlock", "=local", "index", "if", "==", "return", "call:local.removeEntry", 
     "call:p.order.removeEntry", "if", "==", "0", "call:delete"]
 def fp_drpcpool_pool_Pool_closeEntry : List String :=
   ["call:p.log", "s:CLOSE", "if", "||", "==", "call:ent.exp.Stop", "return", "call:ent.val.Close", 
     "return"]
 def fp_drpcpool_pool_Pool_Take : List String :=
-  ["call:p.mu.Lock", "defer", "call:p.mu.Unlock", "index", "if", "==", "return", "call:new", "for", 
-    "!=", "if", "u!", "call:closed", "call:ent.val.Unblocked", "continue", "call:local.removeEntry", 
-    "call:p.order.removeEntry", "if", "&&", "!=", "u!", "call:ent.exp.Stop", "continue", "if", 
-    "call:closed", "call:ent.val.Closed", "continue", "call:p.log", "s:TAKEN", "return", "return", 
-    "call:new"]
+  ["call:p.mu.Lock", "defer", "call:p.mu.Unlock", "=local", "index", "if", "==", "return", "call:new", 
+    "for", "=ent", "!=", "=ent", "if", "u!", "call:closed", "call:ent.val.Unblocked", "continue", 
+    "call:local.removeEntry", "call:p.order.removeEntry", "if", "&&", "!=", "u!", "call:ent.exp.Stop", 
+    "continue", "if", "call:closed", "call:ent.val.Closed", "continue", "call:p.log", "s:TAKEN", 
+    "return", "return", "call:new"]
 def fp_drpcpool_pool_Pool_Put : List String :=
-  ["if", "||", "<", "0", "<", "0", "call:val.Close", "return", "if", "call:closed", "call:val.Closed", 
-    "return", "call:p.mu.Lock", "defer", "call:p.mu.Unlock", "index", "if", "==", "call:new", "index", 
-    "for", "&&", "!=", "0", ">=", "call:p.closeEntry", "call:local.removeEntry", "call:p.order.removeEntry", 
-    "for", "&&", "!=", "0", ">=", "index", "call:p.closeEntry", "call:entLocal.removeEntry", "call:p.order.removeEntry", 
-    "if", "&&", "==", "0", "!=", "call:delete", "u&", "call:local.appendEntry", "call:p.order.appendEntry", 
-    "call:p.log", "s:PUT", "if", ">", "0", "call:time.AfterFunc", "call:val.Close", "call:p.removeEntry"]
+  ["if", "||", "<", "0", "<", "0", "=_", "call:val.Close", "return", "if", "call:closed", "call:val.Closed", 
+    "return", "call:p.mu.Lock", "defer", "call:p.mu.Unlock", "=local", "index", "if", "==", "=local", 
+    "call:new", "=p.entries", "index", "for", "&&", "!=", "0", ">=", "=ent", "=_", "call:p.closeEntry", 
+    "call:local.removeEntry", "call:p.order.removeEntry", "for", "&&", "!=", "0", ">=", "=ent", 
+    "=entLocal", "index", "=_", "call:p.closeEntry", "call:entLocal.removeEntry", "call:p.order.removeEntry", 
+    "if", "&&", "==", "0", "!=", "call:delete", "=ent", "u&", "call:local.appendEntry", "call:p.order.appendEntry", 
+    "call:p.log", "s:PUT", "if", ">", "0", "=ent.exp", "call:time.AfterFunc", "=_", "call:val.Close", 
+    "call:p.removeEntry"]
 def fp_drpcpool_entry_list_appendEntry : List String :=
-  ["if", "==", "if", "!=", "call:node", "call:node", "++"]
+  ["if", "==", "=l.head", "if", "!=", "=node().next", "call:node", "=node().prev", "call:node", 
+    "=l.tail", "++"]
 def fp_drpcpool_entry_list_removeEntry : List String :=
-  ["call:node", "if", "return", "if", "==", "if", "!=", "call:node", "if", "==", "if", "!=", "call:node", 
-    "--"]
+  ["=n", "call:node", "if", "return", "=n.removed", "if", "==", "=l.head", "if", "!=", "=node().prev", 
+    "call:node", "if", "==", "=l.tail", "if", "!=", "=node().next", "call:node", "--"]
 def fp_drpcpool_conn_poolConn_Close : List String :=
   ["call:p.done.Close", "return"]
 def fp_drpcpool_conn_poolConn_Invoke : List String :=
-  ["if", "call:closed", "call:p.done.Get", "return", "call:errs.New", "s:connection closed", "call:p.pool.Take", 
-    "if", "u!", "call:p.dial", "if", "!=", "return", "defer", "call:p.pool.Put", "return", "call:conn.Invoke"]
+  ["if", "call:closed", "call:p.done.Get", "return", "call:errs.New", "s:connection closed", "=conn", 
+    "=ok", "call:p.pool.Take", "if", "u!", "=conn", "=err", "call:p.dial", "if", "!=", "return", 
+    "defer", "call:p.pool.Put", "return", "call:conn.Invoke"]
 def fp_drpcpool_conn_poolConn_NewStream : List String :=
-  ["if", "call:closed", "call:p.done.Get", "return", "call:errs.New", "s:connection closed", "call:p.pool.Take", 
-    "if", "u!", "call:p.dial", "if", "!=", "return", "call:conn.NewStream", "if", "!=", "call:p.pool.Put", 
-    "return", "u&", "go", "call:p.monitorStream", "u&", "return"]
+  ["if", "call:closed", "call:p.done.Get", "return", "call:errs.New", "s:connection closed", "=conn", 
+    "=ok", "call:p.pool.Take", "if", "u!", "=conn", "=err", "call:p.dial", "if", "!=", "return", 
+    "=stream", "=err", "call:conn.NewStream", "if", "!=", "call:p.pool.Put", "return", "=sw", "u&", 
+    "go", "call:p.monitorStream", "u&", "return"]
 def fp_drpcpool_conn_poolConn_monitorStream : List String :=
   ["u<-", "call:stream.Context().Done", "call:stream.Context", "call:p.pool.Put", "call:done.Close"]
 def fp_drpcmigrate_mux_ListenMux_Route : List String :=
   ["call:m.mu.Lock", "defer", "call:m.mu.Unlock", "if", "!=", "call:len", "call:panic", "call:fmt.Sprintf", 
-    "s:invalid prefix: has %d but needs %d bytes", "call:len", "index", "if", "u!", "call:newListener", 
-    "index", "go", "call:m.monitorListener", "return"]
+    "s:invalid prefix: has %d but needs %d bytes", "call:len", "=lis", "=ok", "index", "if", "u!", 
+    "=lis", "call:newListener", "=m.routes", "index", "go", "call:m.monitorListener", "return"]
 def fp_drpcmigrate_mux_ListenMux_Run : List String :=
-  ["call:context.WithCancel", "defer", "call:cancel", "go", "call:m.monitorContext", "go", "call:m.monitorBase", 
-    "u<-", "call:m.mu.Lock", "defer", "call:m.mu.Unlock", "for", "u<-", "call:m.def.Close", "u<-", 
-    "return"]
+  ["=ctx", "=cancel", "call:context.WithCancel", "defer", "call:cancel", "go", "call:m.monitorContext", 
+    "go", "call:m.monitorBase", "u<-", "call:m.mu.Lock", "defer", "call:m.mu.Unlock", "for", "u<-", 
+    "=_", "call:m.def.Close", "u<-", "return"]
 def fp_drpcmigrate_mux_ListenMux_monitorContext : List String :=
-  ["u<-", "call:ctx.Done", "call:m.once.Do", "call:m.base.Close", "call:close"]
+  ["u<-", "call:ctx.Done", "call:m.once.Do", "=_", "call:m.base.Close", "call:close"]
 def fp_drpcmigrate_mux_ListenMux_monitorBase : List String :=
-  ["for", "call:m.base.Accept", "if", "!=", "call:m.once.Do", "call:close", "return", "go", "call:m.routeConn"]
+  ["for", "=conn", "=err", "call:m.base.Accept", "if", "!=", "call:m.once.Do", "=m.err", "call:close", 
+    "return", "go", "call:m.routeConn"]
 def fp_drpcmigrate_mux_ListenMux_monitorListener : List String :=
-  ["select", "u<-", "call:lis.once.Do", "if", "!=", "call:close", "u<-", "call:m.mu.Lock", "call:delete", 
-    "call:m.mu.Unlock"]
+  ["select", "u<-", "call:lis.once.Do", "if", "!=", "=lis.err", "=lis.err", "call:close", "u<-", 
+    "call:m.mu.Lock", "call:delete", "call:m.mu.Unlock"]
 def fp_drpcmigrate_mux_ListenMux_routeConn : List String :=
-  ["call:make", "if", "call:io.ReadFull", "!=", "call:conn.Close", "return", "call:m.mu.Lock", 
-    "index", "call:string", "if", "u!", "call:newPrefixConn", "call:m.mu.Unlock", "select", "u<-", 
-    "call:conn.Close", "send", "call:lis.Conns"]
+  ["=buf", "call:make", "if", "=_", "=err", "call:io.ReadFull", "!=", "=_", "call:conn.Close", 
+    "return", "call:m.mu.Lock", "=lis", "=ok", "index", "call:string", "if", "u!", "=lis", "=conn", 
+    "call:newPrefixConn", "call:m.mu.Unlock", "select", "u<-", "=_", "call:conn.Close", "send", 
+    "call:lis.Conns"]
 def fp_drpcmigrate_listener_listener_Accept : List String :=
-  ["select", "u<-", "return", "select", "u<-", "return", "u<-", "return"]
+  ["select", "u<-", "return", "select", "u<-", "return", "=conn", "u<-", "return"]
 def fp_drpcmigrate_listener_listener_Close : List String :=
-  ["call:l.once.Do", "call:close", "return"]
+  ["call:l.once.Do", "=l.err", "call:close", "return"]
 def fp_drpcmigrate_prefixconn_newPrefixConn : List String :=
   ["return", "u&", "call:io.MultiReader", "call:bytes.NewReader"]
 def fp_drpcmigrate_prefixconn_prefixConn_Read : List String :=
   ["return", "call:pc.Reader.Read"]
 def fp_drpcmigrate_header_HeaderConn_Write : List String :=
-  ["call:d.once.Do", "call:d.Conn.Write", "call:append", "call:[]byte", "if", "-=", "call:len", 
-    "if", "<", "0", "0", "return", "return", "call:d.Conn.Write"]
+  ["call:d.once.Do", "=didOnce", "=n", "=err", "call:d.Conn.Write", "call:append", "call:[]byte", 
+    "if", "-=", "call:len", "if", "<", "0", "=n", "0", "return", "return", "call:d.Conn.Write"]
 def fp_drpcctx_tracker_Tracker_Run : List String :=
   ["call:t.wg.Add", "1", "go", "call:t.track"]
 def fp_drpcctx_tracker_Tracker_track : List String :=
@@ -508,13 +554,13 @@ def fp_drpcctx_tracker_Tracker_Wait : List String :=
 def fp_cmd_protoc_gen_go_drpc_main_main : List String :=
   ["call:flags.StringVar", "u&", "s:protolib", "s:google.golang.org/protobuf", "s:which protobuf library to use for encoding", 
     "call:flags.BoolVar", "u&", "s:json", "s:generate encoders with json support", "call:?.Run", 
-    "for", "if", "||", "u!", "==", "call:len", "0", "continue", "call:generateFile", "call:uint64", 
-    "return"]
+    "for", "if", "||", "u!", "==", "call:len", "0", "continue", "call:generateFile", "=plugin.SupportedFeatures", 
+    "call:uint64", "return"]
 def fp_cmd_protoc_gen_go_drpc_main_generateFile : List String :=
-  ["call:plugin.NewGeneratedFile", "+", "s:_drpc.pb.go", "u&", "call:d.P", "s:// Code generated by protoc-gen-go-drpc. DO NOT EDIT.", 
-    "if", "call:debug.ReadBuildInfo", "call:d.P", "s:// protoc-gen-go-drpc version: ", "call:d.P", 
-    "s:// source: ", "call:file.Desc.Path", "call:d.P", "call:d.P", "s:package ", "call:d.P", "call:d.generateEncoding", 
-    "for", "call:d.generateService"]
+  ["=gf", "call:plugin.NewGeneratedFile", "+", "s:_drpc.pb.go", "=d", "u&", "call:d.P", "s:// Code generated by protoc-gen-go-drpc. DO NOT EDIT.", 
+    "if", "=bi", "=ok", "call:debug.ReadBuildInfo", "call:d.P", "s:// protoc-gen-go-drpc version: ", 
+    "call:d.P", "s:// source: ", "call:file.Desc.Path", "call:d.P", "call:d.P", "s:package ", "call:d.P", 
+    "call:d.generateEncoding", "for", "call:d.generateService"]
 def fp_cmd_protoc_gen_go_drpc_main_drpc_EncodingName : List String :=
   ["return", "+", "s:drpcEncoding_"]
 def fp_cmd_protoc_gen_go_drpc_main_drpc_RPCGoString : List String :=
@@ -618,49 +664,50 @@ def fp_cmd_protoc_gen_go_drpc_main_drpc_generateService : List String :=
     "s:storj.io/drpc", "s:Mux", "s:, impl ", "call:d.ServerIface", "s:) error {", "call:d.P", "s:return mux.Register(impl, ", 
     "call:d.ServerDesc", "s:{})", "call:d.P", "s:}", "for", "call:d.generateServerMethod"]
 def fp_cmd_protoc_gen_go_drpc_main_drpc_generateClientSignature : List String :=
-  ["+", "s:, in *", "call:d.InputType", "if", "call:method.Desc.IsStreamingClient", "s:", "+", 
-    "s:*", "call:d.OutputType", "if", "||", "call:method.Desc.IsStreamingServer", "call:method.Desc.IsStreamingClient", 
-    "call:d.ClientStreamIface", "return", "call:fmt.Sprintf", "s:%s(ctx %s%s) (%s, error)", "call:d.Ident", 
-    "s:context", "s:Context"]
+  ["=reqArg", "+", "s:, in *", "call:d.InputType", "if", "call:method.Desc.IsStreamingClient", 
+    "=reqArg", "s:", "=respName", "+", "s:*", "call:d.OutputType", "if", "||", "call:method.Desc.IsStreamingServer", 
+    "call:method.Desc.IsStreamingClient", "=respName", "call:d.ClientStreamIface", "return", "call:fmt.Sprintf", 
+    "s:%s(ctx %s%s) (%s, error)", "call:d.Ident", "s:context", "s:Context"]
 def fp_cmd_protoc_gen_go_drpc_main_drpc_generateClientMethod : List String :=
-  ["call:d.ClientImpl", "call:d.OutputType", "call:d.InputType", "call:d.P", "s:func (c *", "s:) ", 
-    "call:d.generateClientSignature", "s:{", "if", "&&", "u!", "call:method.Desc.IsStreamingServer", 
-    "u!", "call:method.Desc.IsStreamingClient", "call:d.P", "s:out := new(", "s:)", "call:d.P", 
-    "s:err := c.cc.Invoke(ctx, ", "call:d.RPCGoString", "s:, ", "call:d.EncodingName", "s:{}, in, out)", 
-    "call:d.P", "s:if err != nil { return nil, err }", "call:d.P", "s:return out, nil", "call:d.P", 
-    "s:}", "call:d.P", "return", "call:d.P", "s:stream, err := c.cc.NewStream(ctx, ", "call:d.RPCGoString", 
-    "s:, ", "call:d.EncodingName", "s:{})", "call:d.P", "s:if err != nil { return nil, err }", 
+  ["=recvType", "call:d.ClientImpl", "=outType", "call:d.OutputType", "=inType", "call:d.InputType", 
+    "call:d.P", "s:func (c *", "s:) ", "call:d.generateClientSignature", "s:{", "if", "&&", "u!", 
+    "call:method.Desc.IsStreamingServer", "u!", "call:method.Desc.IsStreamingClient", "call:d.P", 
+    "s:out := new(", "s:)", "call:d.P", "s:err := c.cc.Invoke(ctx, ", "call:d.RPCGoString", "s:, ", 
+    "call:d.EncodingName", "s:{}, in, out)", "call:d.P", "s:if err != nil { return nil, err }", 
+    "call:d.P", "s:return out, nil", "call:d.P", "s:}", "call:d.P", "return", "call:d.P", "s:stream, err := c.cc.NewStream(ctx, ", 
+    "call:d.RPCGoString", "s:, ", "call:d.EncodingName", "s:{})", "call:d.P", "s:if err != nil { return nil, err }", 
     "call:d.P", "s:x := &", "call:d.ClientStreamImpl", "s:{stream}", "if", "u!", "call:method.Desc.IsStreamingClient", 
     "call:d.P", "s:if err := x.MsgSend(in, ", "call:d.EncodingName", "s:{}); err != nil { return nil, err }", 
     "call:d.P", "s:if err := x.CloseSend(); err != nil { return nil, err }", "call:d.P", "s:return x, nil", 
-    "call:d.P", "s:}", "call:d.P", "call:method.Desc.IsStreamingClient", "call:method.Desc.IsStreamingServer", 
-    "u!", "call:method.Desc.IsStreamingServer", "call:d.P", "s:type ", "call:d.ClientStreamIface", 
-    "s: interface {", "call:d.P", "call:d.Ident", "s:storj.io/drpc", "s:Stream", "if", "call:d.P", 
-    "s:Send(*", "s:) error", "if", "call:d.P", "s:Recv() (*", "s:, error)", "if", "call:d.P", "s:CloseAndRecv() (*", 
-    "s:, error)", "call:d.P", "s:}", "call:d.P", "call:d.P", "s:type ", "call:d.ClientStreamImpl", 
-    "s: struct {", "call:d.P", "call:d.Ident", "s:storj.io/drpc", "s:Stream", "call:d.P", "s:}", 
-    "call:d.P", "call:d.P", "s:func (x *", "call:d.ClientStreamImpl", "s:) GetStream() ", "call:d.Ident", 
-    "s:storj.io/drpc", "s:Stream", "s: {", "call:d.P", "s:return x.Stream", "call:d.P", "s:}", 
-    "call:d.P", "if", "call:d.P", "s:func (x *", "call:d.ClientStreamImpl", "s:) Send(m *", "s:) error {", 
-    "call:d.P", "s:return x.MsgSend(m, ", "call:d.EncodingName", "s:{})", "call:d.P", "s:}", "call:d.P", 
-    "if", "call:d.P", "s:func (x *", "call:d.ClientStreamImpl", "s:) Recv() (*", "s:, error) {", 
+    "call:d.P", "s:}", "call:d.P", "=genSend", "call:method.Desc.IsStreamingClient", "=genRecv", 
+    "call:method.Desc.IsStreamingServer", "=genCloseAndRecv", "u!", "call:method.Desc.IsStreamingServer", 
+    "call:d.P", "s:type ", "call:d.ClientStreamIface", "s: interface {", "call:d.P", "call:d.Ident", 
+    "s:storj.io/drpc", "s:Stream", "if", "call:d.P", "s:Send(*", "s:) error", "if", "call:d.P", 
+    "s:Recv() (*", "s:, error)", "if", "call:d.P", "s:CloseAndRecv() (*", "s:, error)", "call:d.P", 
+    "s:}", "call:d.P", "call:d.P", "s:type ", "call:d.ClientStreamImpl", "s: struct {", "call:d.P", 
+    "call:d.Ident", "s:storj.io/drpc", "s:Stream", "call:d.P", "s:}", "call:d.P", "call:d.P", "s:func (x *", 
+    "call:d.ClientStreamImpl", "s:) GetStream() ", "call:d.Ident", "s:storj.io/drpc", "s:Stream", 
+    "s: {", "call:d.P", "s:return x.Stream", "call:d.P", "s:}", "call:d.P", "if", "call:d.P", "s:func (x *", 
+    "call:d.ClientStreamImpl", "s:) Send(m *", "s:) error {", "call:d.P", "s:return x.MsgSend(m, ", 
+    "call:d.EncodingName", "s:{})", "call:d.P", "s:}", "call:d.P", "if", "call:d.P", "s:func (x *", 
+    "call:d.ClientStreamImpl", "s:) Recv() (*", "s:, error) {", "call:d.P", "s:m := new(", "s:)", 
+    "call:d.P", "s:if err := x.MsgRecv(m, ", "call:d.EncodingName", "s:{}); err != nil { return nil, err }", 
+    "call:d.P", "s:return m, nil", "call:d.P", "s:}", "call:d.P", "call:d.P", "s:func (x *", "call:d.ClientStreamImpl", 
+    "s:) RecvMsg(m *", "s:) error {", "call:d.P", "s:return x.MsgRecv(m, ", "call:d.EncodingName", 
+    "s:{})", "call:d.P", "s:}", "call:d.P", "if", "call:d.P", "s:func (x *", "call:d.ClientStreamImpl", 
+    "s:) CloseAndRecv() (*", "s:, error) {", "call:d.P", "s:if err := x.CloseSend(); err != nil { return nil, err }", 
     "call:d.P", "s:m := new(", "s:)", "call:d.P", "s:if err := x.MsgRecv(m, ", "call:d.EncodingName", 
     "s:{}); err != nil { return nil, err }", "call:d.P", "s:return m, nil", "call:d.P", "s:}", 
-    "call:d.P", "call:d.P", "s:func (x *", "call:d.ClientStreamImpl", "s:) RecvMsg(m *", "s:) error {", 
-    "call:d.P", "s:return x.MsgRecv(m, ", "call:d.EncodingName", "s:{})", "call:d.P", "s:}", "call:d.P", 
-    "if", "call:d.P", "s:func (x *", "call:d.ClientStreamImpl", "s:) CloseAndRecv() (*", "s:, error) {", 
-    "call:d.P", "s:if err := x.CloseSend(); err != nil { return nil, err }", "call:d.P", "s:m := new(", 
-    "s:)", "call:d.P", "s:if err := x.MsgRecv(m, ", "call:d.EncodingName", "s:{}); err != nil { return nil, err }", 
-    "call:d.P", "s:return m, nil", "call:d.P", "s:}", "call:d.P", "call:d.P", "s:func (x *", "call:d.ClientStreamImpl", 
-    "s:) CloseAndRecvMsg(m *", "s:) error {", "call:d.P", "s:if err := x.CloseSend(); err != nil { return err }", 
-    "call:d.P", "s:return x.MsgRecv(m, ", "call:d.EncodingName", "s:{})", "call:d.P", "s:}", "call:d.P"]
+    "call:d.P", "call:d.P", "s:func (x *", "call:d.ClientStreamImpl", "s:) CloseAndRecvMsg(m *", 
+    "s:) error {", "call:d.P", "s:if err := x.CloseSend(); err != nil { return err }", "call:d.P", 
+    "s:return x.MsgRecv(m, ", "call:d.EncodingName", "s:{})", "call:d.P", "s:}", "call:d.P"]
 def fp_cmd_protoc_gen_go_drpc_main_drpc_generateServerSignature : List String :=
-  ["s:error", "if", "&&", "u!", "call:method.Desc.IsStreamingServer", "u!", "call:method.Desc.IsStreamingClient", 
-    "call:append", "call:d.Ident", "s:context", "s:Context", "+", "+", "s:(*", "call:d.OutputType", 
-    "s:, error)", "if", "u!", "call:method.Desc.IsStreamingClient", "call:append", "+", "s:*", 
-    "call:d.InputType", "if", "||", "call:method.Desc.IsStreamingServer", "call:method.Desc.IsStreamingClient", 
-    "call:append", "call:d.ServerStreamIface", "return", "+", "+", "+", "+", "s:(", "call:strings.Join", 
-    "s:, ", "s:) "]
+  ["=ret", "s:error", "if", "&&", "u!", "call:method.Desc.IsStreamingServer", "u!", "call:method.Desc.IsStreamingClient", 
+    "=reqArgs", "call:append", "call:d.Ident", "s:context", "s:Context", "=ret", "+", "+", "s:(*", 
+    "call:d.OutputType", "s:, error)", "if", "u!", "call:method.Desc.IsStreamingClient", "=reqArgs", 
+    "call:append", "+", "s:*", "call:d.InputType", "if", "||", "call:method.Desc.IsStreamingServer", 
+    "call:method.Desc.IsStreamingClient", "=reqArgs", "call:append", "call:d.ServerStreamIface", 
+    "return", "+", "+", "+", "+", "s:(", "call:strings.Join", "s:, ", "s:) "]
 def fp_cmd_protoc_gen_go_drpc_main_drpc_generateUnimplementedServerMethod : List String :=
   ["call:d.P", "s:func (s *", "call:d.ServerUnimpl", "s:) ", "call:d.generateServerSignature", 
     "s: {", "if", "&&", "u!", "call:method.Desc.IsStreamingServer", "u!", "call:method.Desc.IsStreamingClient", 
@@ -674,31 +721,32 @@ def fp_cmd_protoc_gen_go_drpc_main_drpc_generateServerReceiver : List String :=
     "call:d.Ident", "s:storj.io/drpc", "s:Message", "s:, error) {", "if", "&&", "u!", "call:method.Desc.IsStreamingServer", 
     "u!", "call:method.Desc.IsStreamingClient", "call:d.P", "s:return srv.(", "call:d.ServerIface", 
     "s:).", "call:d.P", "s:return nil, srv.(", "call:d.ServerIface", "s:).", "call:d.P", "s:(", 
-    "1", "if", "&&", "u!", "call:method.Desc.IsStreamingServer", "u!", "call:method.Desc.IsStreamingClient", 
+    "=n", "1", "if", "&&", "u!", "call:method.Desc.IsStreamingServer", "u!", "call:method.Desc.IsStreamingClient", 
     "call:d.P", "s:ctx,", "if", "u!", "call:method.Desc.IsStreamingClient", "call:d.P", "s:in", 
     "s:.(*", "call:d.InputType", "s:),", "++", "if", "||", "call:method.Desc.IsStreamingServer", 
     "call:method.Desc.IsStreamingClient", "call:d.P", "s:&", "call:d.ServerStreamImpl", "s:{in", 
     "s:.(", "call:d.Ident", "s:storj.io/drpc", "s:Stream", "s:)},", "call:d.P", "s:)"]
 def fp_cmd_protoc_gen_go_drpc_main_drpc_generateServerMethod : List String :=
-  ["call:method.Desc.IsStreamingServer", "u!", "call:method.Desc.IsStreamingServer", "call:method.Desc.IsStreamingClient", 
-    "call:d.P", "s:type ", "call:d.ServerStreamIface", "s: interface {", "call:d.P", "call:d.Ident", 
-    "s:storj.io/drpc", "s:Stream", "if", "call:d.P", "s:Send(*", "call:d.OutputType", "s:) error", 
-    "if", "call:d.P", "s:SendAndClose(*", "call:d.OutputType", "s:) error", "if", "call:d.P", "s:Recv() (*", 
-    "call:d.InputType", "s:, error)", "call:d.P", "s:}", "call:d.P", "call:d.P", "s:type ", "call:d.ServerStreamImpl", 
-    "s: struct {", "call:d.P", "call:d.Ident", "s:storj.io/drpc", "s:Stream", "call:d.P", "s:}", 
-    "call:d.P", "call:d.P", "s:func (x *", "call:d.ServerStreamImpl", "s:) GetStream() ", "call:d.Ident", 
-    "s:storj.io/drpc", "s:Stream", "s: {", "call:d.P", "s:return x.Stream", "call:d.P", "s:}", 
-    "call:d.P", "if", "call:d.P", "s:func (x *", "call:d.ServerStreamImpl", "s:) Send(m *", "call:d.OutputType", 
-    "s:) error {", "call:d.P", "s:return x.MsgSend(m, ", "call:d.EncodingName", "s:{})", "call:d.P", 
-    "s:}", "call:d.P", "if", "call:d.P", "s:func (x *", "call:d.ServerStreamImpl", "s:) SendAndClose(m *", 
-    "call:d.OutputType", "s:) error {", "call:d.P", "s:if err := x.MsgSend(m, ", "call:d.EncodingName", 
-    "s:{}); err != nil { return err }", "call:d.P", "s:return x.CloseSend()", "call:d.P", "s:}", 
-    "call:d.P", "if", "call:d.P", "s:func (x *", "call:d.ServerStreamImpl", "s:) Recv() (*", "call:d.InputType", 
-    "s:, error) {", "call:d.P", "s:m := new(", "call:d.InputType", "s:)", "call:d.P", "s:if err := x.MsgRecv(m, ", 
-    "call:d.EncodingName", "s:{}); err != nil { return nil, err }", "call:d.P", "s:return m, nil", 
-    "call:d.P", "s:}", "call:d.P", "call:d.P", "s:func (x *", "call:d.ServerStreamImpl", "s:) RecvMsg(m *", 
-    "call:d.InputType", "s:) error {", "call:d.P", "s:return x.MsgRecv(m, ", "call:d.EncodingName", 
-    "s:{})", "call:d.P", "s:}", "call:d.P"]
+  ["=genSend", "call:method.Desc.IsStreamingServer", "=genSendAndClose", "u!", "call:method.Desc.IsStreamingServer", 
+    "=genRecv", "call:method.Desc.IsStreamingClient", "call:d.P", "s:type ", "call:d.ServerStreamIface", 
+    "s: interface {", "call:d.P", "call:d.Ident", "s:storj.io/drpc", "s:Stream", "if", "call:d.P", 
+    "s:Send(*", "call:d.OutputType", "s:) error", "if", "call:d.P", "s:SendAndClose(*", "call:d.OutputType", 
+    "s:) error", "if", "call:d.P", "s:Recv() (*", "call:d.InputType", "s:, error)", "call:d.P", 
+    "s:}", "call:d.P", "call:d.P", "s:type ", "call:d.ServerStreamImpl", "s: struct {", "call:d.P", 
+    "call:d.Ident", "s:storj.io/drpc", "s:Stream", "call:d.P", "s:}", "call:d.P", "call:d.P", "s:func (x *", 
+    "call:d.ServerStreamImpl", "s:) GetStream() ", "call:d.Ident", "s:storj.io/drpc", "s:Stream", 
+    "s: {", "call:d.P", "s:return x.Stream", "call:d.P", "s:}", "call:d.P", "if", "call:d.P", "s:func (x *", 
+    "call:d.ServerStreamImpl", "s:) Send(m *", "call:d.OutputType", "s:) error {", "call:d.P", 
+    "s:return x.MsgSend(m, ", "call:d.EncodingName", "s:{})", "call:d.P", "s:}", "call:d.P", "if", 
+    "call:d.P", "s:func (x *", "call:d.ServerStreamImpl", "s:) SendAndClose(m *", "call:d.OutputType", 
+    "s:) error {", "call:d.P", "s:if err := x.MsgSend(m, ", "call:d.EncodingName", "s:{}); err != nil { return err }", 
+    "call:d.P", "s:return x.CloseSend()", "call:d.P", "s:}", "call:d.P", "if", "call:d.P", "s:func (x *", 
+    "call:d.ServerStreamImpl", "s:) Recv() (*", "call:d.InputType", "s:, error) {", "call:d.P", 
+    "s:m := new(", "call:d.InputType", "s:)", "call:d.P", "s:if err := x.MsgRecv(m, ", "call:d.EncodingName", 
+    "s:{}); err != nil { return nil, err }", "call:d.P", "s:return m, nil", "call:d.P", "s:}", 
+    "call:d.P", "call:d.P", "s:func (x *", "call:d.ServerStreamImpl", "s:) RecvMsg(m *", "call:d.InputType", 
+    "s:) error {", "call:d.P", "s:return x.MsgRecv(m, ", "call:d.EncodingName", "s:{})", "call:d.P", 
+    "s:}", "call:d.P"]
 
 def twirpStatus : List (String × Nat) := [("canceled", 408), ("unknown", 500), ("invalid_argument", 400), ("malformed", 400), ("deadline_exceeded", 408), ("not_found", 404), ("bad_route", 404), ("already_exists", 409), ("permission_denied", 403), ("unauthenticated", 401), ("resource_exhausted", 429), ("failed_precondition", 412), ("aborted", 409), ("out_of_range", 400), ("unimplemented", 501), ("internal", 500), ("unavailable", 503), ("dataloss", 500)]
 def defaultProtocols : List (String × String) := [("*", "twirpProtocol ct=application/proto marshal=protoMarshal unmarshal=protoUnmarshal"),
